@@ -98,9 +98,19 @@ def classes_for(M):
 
 
 # ----------------------------------------------------------------------------- calling / projecting
+_CALLS = [0]
+
+
 def call(fn, o, f, nreq, seed):
     """Outcome class and (orientations, volumes) of one call; nreq = 0 means n_samples not given."""
     kw = {} if nreq == 0 else {"n_samples": nreq}
+    if isinstance(o, np.ndarray) and isinstance(f, np.ndarray) and o.dtype.kind == "f" and f.dtype.kind == "f":
+        # well-formed ndarray inputs are handed over in one of several in-memory representations of the same values
+        from harness.common import represent
+
+        _CALLS[0] += 1
+        kind = ("c", "fortran", "strided", "readonly", "c")[_CALLS[0] % 5]
+        o, f = represent(o, kind), represent(f, "strided" if kind == "fortran" else kind)
     try:
         out = fn(o, f, seed=seed, **kw)
     except ValueError:
